@@ -231,8 +231,11 @@ class Explorer:
     """builds both binaries from the current tree, snapshots the source dirs, runs build jobs on
     a process pool; every job is a sequence of prebuild runs from a prior state."""
 
+    _n = 0
+
     def __init__(self, jobs=None):
-        self.root = os.path.join(C.scratch(), 'cfgx')
+        Explorer._n += 1
+        self.root = os.path.join(C.scratch(), 'cfgx%d' % Explorer._n)
         os.makedirs(self.root, exist_ok=True)
         self.cas = os.path.join(self.root, 'cas'); os.makedirs(self.cas, exist_ok=True)
         self.snap = os.path.join(self.root, 'src')
